@@ -88,3 +88,22 @@ PROPS['C11'] = {'units': ['C'], 'spec_tags': ['tok', 'filt'], 'bounded': ['filte
                             'assumed contracts of std through N10 wrappers: str::contains(char), str::replace(char, &str) (every occurrence replaced, left to right), Cow/AsRef<str> views',
                             'tags inside a filter are valid field names (Tag::Other built by hand may not be: documented precondition of the crate)',
                             'termination of the recursive FilterType::render is not checked (exec_allows_no_decreases_clause): it recurses on strict sub-terms']}
+
+# ---- per-property wording of the claimed level (used by tools/mkmanifest.py)
+PROPS['C14']['category'] = 'exploration'
+PROPS['C14']['level_text'] = ("BOUNDED, not proved: the song decoder keeps tags in a HashMap keyed by the repository's own Hash/Eq on Tag, which vstd cannot model, so no contract within reach pins the decoded songs down. "
+    "The property is decided by a bounded differential run (abstract listing -> MPD wire text -> real parser -> real decoder -> compared attribute by attribute); Verus contributes only the contracts of the pieces it shares with other properties (Frame iteration, Tag parsing/equality, duration and number conversion)")
+PROPS['C14']['level_note'] = 'bounded stand-in typeddiff (stated bound in evidence); no obligation of this property is counted as proved'
+PROPS['C14']['technique'] = 'bounded differential execution of the real decoder against an abstract listing (stand-in inside the contract-based framework; the deductive part covers only shared callees)'
+PROPS['C12']['level_text'] = ("Panic freedom is an IMPLICIT obligation of every function lifted into Verus (panic!/unreachable!/assert!/unwrap/indexing/slicing/overflow/division carry preconditions that must be discharged for all inputs): proved for the lifted decoders "
+    "(responses/mod.rs, count.rs from_frame, sticker get/value, tag.rs, filter.rs, command_list.rs tuples, client handle functions). The remaining decoders (song.rs, list.rs, playlist.rs, grouped count, sticker list/find, definitions.rs response fns, Vec command lists) are covered only by the bounded fuzz typedfuzz")
+PROPS['C12']['level_note'] = 'mixed: proof for the functions listed under functions_under_contract, bounded (typedfuzz, labelled bounded) for functions_not_under_contract; built without the chrono feature'
+PROPS['C16']['level_text'] = ("Status, Stats, ReplayGainStatus, Count (plain), AlbumArt, StickerGet and the field extraction helpers are PROVED equal to field oracles evaluated on the ORIGINAL frame (every optional-field subset, any field order, values outside the domain => error), for all frames. "
+    "Grouped count, list (plain/grouped), listplaylists, sticker list/find, channels, messages, tag types are iterator-adaptor / HashMap code outside Verus' reach: bounded differential stand-in typeddiff")
+PROPS['C16']['level_note'] = 'mixed: proof for the decoders under contract, bounded (typeddiff) for the rest; number/duration parsing of std is an uninterpreted function of the text'
+PROPS['C20']['level_text'] = ("Proved for all tags / subsystems / candidate strings: as_str equals the oracle name table, ==, cmp, partial_cmp and hash are functions of the protocol name only, parsing is total and case-insensitive for known names with the exact error for the first offending character, "
+    "named variants round-trip; one clause fails and is a known finding (catch-all holding a known name in another letter case)")
+PROPS['C11']['level_text'] = ("Proved for all filter trees and all value strings: every constructor builds the stated tree (AND flattened), the bytes written are the MPD expression text with the library's value escaping, and - by a lemma over a spec port of MPD's tokenizer and filter grammar - the server reads back the same tree "
+    "whenever each value is written as esc(esc(v)); that side condition is proved for every value without a double quote (backslashes included, after the fix) and fails for values with a double quote (known finding)")
+PROPS['C13']['level_text'] = ("Proved: list rendering (one begin/end block for N >= 2, the bare command for N = 1) for all lists, and positional pairing of all eight tuple impls (expanded from the macro) against ghost command/response specs of the Command trait. "
+    "The Vec<C> impl is iterator-adaptor code outside Verus' reach: bounded stand-in listpair (by parametricity nearly exhaustive); the framing literals are decided by execution")
